@@ -41,8 +41,22 @@ Completed(ev) ==
   /\ ev.status.mapper = "ok" /\ ev.status.cache = "ok"
   /\ ev.t = "q" => ev.status.mapperp = "ok"
 
+\* the Iterator interface of a frame iterator, beyond next(): what count(), last(), nth(k) and size_hint() say must
+\* be what draining it with next() gives, i.e. the answer (a = the answer, g = the recorded adaptor results)
+AdaptorsAgree(a, g) ==
+  /\ g.count = Len(a)
+  /\ g.last = (IF a = <<>> THEN <<>> ELSE <<a[Len(a)]>>)
+  /\ \A j \in 1..Len(g.nth) :
+       g.nth[j].got = (IF g.nth[j].k < Len(a) THEN <<a[g.nth[j].k + 1]>> ELSE <<>>)
+  /\ g.hint_lo <= Len(a)
+  /\ g.hint_hi # <<>> => Len(a) <= g.hint_hi[1]
+  /\ g.rest_after_nth = (IF Len(a) > 2 THEN Len(a) - 2 ELSE 0)       \* nth(1) consumed two items
+
 Conforms(ev) ==
   CASE ev.t = "load" -> TRUE
+    [] ev.t = "adapt" ->
+         LET s == Session[ev.sid] IN
+         s.indomain => \A h \in DOMAIN ev.got : AdaptorsAgree(Answer(s.blocks, ev.q, h \notin NoParamIndex), ev.got[h])
     [] ev.t = "call" -> Completed(ev)
     [] ev.t = "soup" -> ev.failing = <<>>          \* bounded-exhaustive token strings: every call completed
     [] ev.t = "q" ->
